@@ -336,7 +336,10 @@ def degenerate_bounded_instance():
         if 'cov' in out and out.get('ctype') == 'full':
             c = np.asarray(out['cov'])
             yield 'gaussian-covariance-symmetric', bool(np.allclose(c, np.swapaxes(c, -1, -2), rtol=1e-9, atol=1e-12))
-            yield 'gaussian-covariance-positive-definite', bool(np.all(np.linalg.eigvalsh(0.5 * (c + np.swapaxes(c, -1, -2))) > 0))
+            # a class that collapsed onto fewer than D + 1 frames has a covariance that is singular up to rounding (smallest
+            # eigenvalue like -1e-17) and still passes the constructor's Cholesky factorisation: positive definite up to rounding
+            ev_ = np.linalg.eigvalsh(0.5 * (c + np.swapaxes(c, -1, -2)))
+            yield 'gaussian-covariance-positive-definite', bool(np.all(ev_[..., 0] > -1e-12 * ev_[..., -1]) and np.all(ev_[..., -1] > 0))
 
     return Instance('C09', DN + '*Trainer.fit', 'bounded-degenerate-data', make, call, ensures, mode='bounded', bounded_n=150, frame=False,
                     raises=(ValueError, np.linalg.LinAlgError))      # explicit rejection of an ill-defined covariance is allowed
